@@ -31,6 +31,7 @@ fn main() {
         "tuple" => tuple::main(&rest),
         "wire" => wire::main(&rest),
         "probe" => probe::main(&rest),
+        "soak" => probe::soak(&rest),
         "db" => dbdrv::main(&rest),
         "crash" => crash::main(&rest),
         "reopen-child" => crash::child(&rest),
